@@ -47,6 +47,8 @@ JOBS = 6          # parallel compile / replay jobs (shared machine)
 PYINC = None
 
 
+from ._c01_scope import run_part as scope_part
+
 def optsets(tier):
     S = []
     for back in ("c", "python"):
@@ -481,9 +483,11 @@ def run_check(ctx):
         for st in x["steps"]:
             if st["op"] in ("new", "call"):
                 calls.add((st["gid"], st["k"], st.get("this", 0), json.dumps(st["args"])))
-    ctx.cov["evaluations"] = total
-    ctx.cov["traces_validated_against_impl"] = sum(d["behaviours"] for d in per_opt.values())
-    ctx.cov["distinct_nontrivial"] = len(calls)
+    # ---- scopes / arity 4-6 with defaults / casts under multiple and virtual inheritance (spec WrapCScope) ----
+    sinfo = scope_part(ctx, work)
+    ctx.cov["evaluations"] = total + sinfo["steps_compared"]
+    ctx.cov["traces_validated_against_impl"] = sum(d["behaviours"] for d in per_opt.values()) + sinfo["behaviour_replays"]
+    ctx.cov["distinct_nontrivial"] = len(calls) + sinfo["distinct_calls"]
     ctx.cov["exhaustive"] = True
     ctx.cov["rule"] = ("overload sets: every pair of the 20 parameter kinds under one name (quick: each pair in one of nine "
                        "flavour / class / position universes, thorough: in all nine) plus six groups of conversion-related "
